@@ -4,6 +4,19 @@ VERIF = os.path.dirname(os.path.dirname(os.path.abspath(__file__)))
 ALL = ["C%02d" % i for i in range(1, 21)]
 
 CLAIMS = {
+ "C03": dict(
+    text="Coq theorems for ANY carrier, residual function, quasi-Newton strategy, tolerances and budget: a silent return of the "
+         "root loop hands back the very iterate on which the four-way stopping test succeeded (evaluated on func of that point) "
+         "or an exact root; what the test implies; on the warning path the returned point is the initial point or a visited "
+         "iterate; at most maxiter evaluations after the first; gd returns x0 silently for maxiter=0 and, with a warning, one of "
+         "the evaluated points; MathComp: both Broyden updates satisfy the secant condition, LowRankMatrix products, equilibrium "
+         "reduction. The Gallina loop with LinearMixing / Broyden (LowRank->FullRank) matrices and gd runs at IEEE binary64 "
+         "against the public rootfinder / minimize: every evaluation point, warned or not, returned point (2^-30; thin margins skipped).",
+    note="Trusted: Coq kernel + vm_compute + PrimFloat; harness. The Armijo line search, newton, anderson_acc, adam and the "
+         "convergence of all methods on contractive families (silent, agreeing, right shape/dtype, complex unknowns, minimize "
+         "clauses) are implementation oracles, not theorems.",
+    technique="Coq proof (loop invariant by induction on fuel; MathComp matrix algebra) + float model correspondence",
+    ref="DESIGN.md section 7, C03"),
  "C14": dict(
     text="MathComp theorems over any ordered field with the code's own coefficients: the two evaluation formulas of each "
          "method coincide; sample values are reproduced at the knots; every cubic piece has the spline's k values as end slopes "
